@@ -132,6 +132,8 @@ def run_shard(spec, ctx):
         def worker(i):
             try:
                 barrier.wait(timeout=30)
+                if nthreads in (3, 8):
+                    time.sleep(0.003 * i)  # staggered starts: a late-comer is the thread that finds half-built state
                 results[i] = ("ok", f(datas[i], starts[i]))
             except BaseException as e:  # noqa
                 results[i] = ("exc", repr(e))
